@@ -4,6 +4,8 @@ pub mod c01;
 pub mod c05;
 pub mod c09;
 pub mod c11;
+pub mod c12;
+pub mod c18;
 pub mod selftest;
 
 pub fn dispatch(id: &str, tier: Tier, seed: u64, rest: &[String]) -> i32 {
@@ -13,6 +15,8 @@ pub fn dispatch(id: &str, tier: Tier, seed: u64, rest: &[String]) -> i32 {
         "C01" => c01::main(tier, seed),
         "C05" => c05::main(tier, seed),
         "C09" => c09::main(tier, seed),
+        "C12" => c12::main(tier, seed),
+        "C18" => c18::main(tier, seed),
         "C11" => c11::main(tier, seed),
         _ => {
             eprintln!("unknown check {id}");
